@@ -98,6 +98,8 @@ Lemma lift_m_log m x : klog m (lift_m m x) = mlog m.
 Proof. destruct x; reflexivity. Qed.
 Lemma lift_m_db m x : kdb m (lift_m m x) = mdb m.
 Proof. destruct x; reflexivity. Qed.
+Lemma lift_m_silent m x : klog m (lift_m m x) = mlog m /\ kdb m (lift_m m x) = mdb m.
+Proof. split; [apply lift_m_log|apply lift_m_db]. Qed.
 
 Lemma dbstep_agree h0 fresh newid d1 d2 nf fr lg b tr cnt t gs r : dbK d1 d2 ->
   Forall inK (klog (mkms d1 nf fr lg) (dbstep h0 fresh newid (mkms d1 nf fr lg) b tr cnt t gs r)) ->
